@@ -55,8 +55,11 @@ namespace rkcommon {
       template <class G>
       T operator()(G &g)
       {
-        const T scale = (u - l) / T(g.max() - g.min());
-        return l + (g() - g.min()) * scale;
+        // normalize the sample to [0,1] first: pre-dividing the width by the
+        // generator range makes it denormal for tiny ranges, and its rounding
+        // error is then multiplied by up to 2^32 (results beyond u)
+        const T range = T(g.max() - g.min());
+        return l + ((g() - g.min()) / range) * (u - l);
       }
 
      private:
